@@ -54,7 +54,7 @@ def decorate_answer(answer, request):
     answer.header.hop_by_hop = request.header.hop_by_hop
     answer.header.end_to_end = request.header.end_to_end
 
-    if request.has_avp("session_id_avp"):
+    if request.has_avp("session_id_avp") and answer.has_avp("session_id_avp"):
         answer.session_id_avp.data = request.session_id_avp.data
         answer.refresh()
 
